@@ -35,6 +35,11 @@ func (e *shEncoder) Encode(writer io.Writer, node *CandidateNode) error {
 		return fmt.Errorf("cannot encode %v as URI, can only operate on strings. Please first pipe through another encoding operator to convert the value to a string", node.Tag)
 	}
 
+	if strings.ContainsRune(node.Value, 0) {
+		// no shell word can hold a NUL: shells cut the value there or drop the byte
+		return fmt.Errorf("cannot encode a value that contains a NUL character for a shell")
+	}
+
 	return writeString(writer, e.encode(node.Value))
 }
 
